@@ -143,6 +143,7 @@ class CompilationEngine:
     """
 
     parsed: dict[DefId, ParsedDef]
+    parsing: set[DefId]
     checked: dict[DefId, CheckedDef]
     compiled: dict["MonoDefId", CompiledDef]
     additional_extensions: list[Extension]
@@ -158,6 +159,7 @@ class CompilationEngine:
     def reset(self) -> None:
         """Resets the compilation cache."""
         self.parsed = {}
+        self.parsing = set()
         self.checked = {}
         self.compiled = {}
         self.to_check_worklist = {}
@@ -181,7 +183,19 @@ class CompilationEngine:
             return self.parsed[id]
         defn = DEF_STORE.raw_defs[id]
         if isinstance(defn, ParsableDef):
-            defn = defn.parse(Globals(DEF_STORE.frames[defn.id]), DEF_STORE.sources)
+            if id in self.parsing:
+                # The definition mentions itself while it is being parsed, for example a
+                # function whose signature names the function. Hand out the raw
+                # definition so that the use site reports a regular error instead of
+                # parsing the definition again without end
+                return defn  # type: ignore[return-value]
+            self.parsing.add(id)
+            try:
+                defn = defn.parse(
+                    Globals(DEF_STORE.frames[defn.id]), DEF_STORE.sources
+                )
+            finally:
+                self.parsing.discard(id)
         self.parsed[id] = defn
         if isinstance(defn, TypeDef):
             self.types_to_check_worklist[id] = defn
